@@ -2,7 +2,7 @@
 
 package m3
 
-func (r *reporter) verifAtSelectSend() {}
-func (r *reporter) verifAtMarkerSend() {}
-func (r *reporter) verifAtRecv()       {}
+func (r *reporter) verifAtSelectSend()        {}
+func (r *reporter) verifAtMarkerSend()        {}
+func (r *reporter) verifAtRecv()              {}
 func (r *reporter) verifGot(smet sizedMetric) {}
